@@ -6,8 +6,16 @@
   closed, every node is a PACKAGE or a FILE, every package's supplier/originator strings are
   unchanged by the tools-golang agent codec. `codecId_of_noPrefix` shows the first condition holds
   for every identifier not starting with `SPDXRef-`.
+
+  Collections of any size (end of file): a hash map over the sixteen shared algorithms, a list of
+  references of the eight expressible types and an identifier map over the four kinds all come
+  back entry for entry (`all_hashes_preserved`, `all_references_and_identifiers_preserved`), and a
+  second pass over a package node of that class changes nothing (`second_pass_package_node`).
+  PARTIAL: the second pass is proved per package node and for the edge list; file nodes and the
+  tools-golang agent codec on the second pass are decided by stream `spdx`.
 -/
 import Protobom.Proofs.Spdx
+import Protobom.Proofs.SpdxAttrs
 
 namespace Protobom.C01
 open Protobom Protobom.Spdx Gen
@@ -279,7 +287,7 @@ theorem supplier_preserved (n : Node) (p : Person) (rest : List Person)
     (packageToNode (packageOf n)).attr "Suppliers" =
       some (.persons [Person.mk (clientString p) (clientOrg p = "Organization") "" "" "" []]) := by
   rw [package_attr n _ .persons (by simp [Schema.nodeAttrs])]
-  simp [pkgAttr, packageOf, hs, hne, agentPerson]
+  simp [pkgAttr, packageOf, hs, hne, agentPerson, supplierPersons]
 
 theorem originator_preserved (n : Node) (p : Person) (rest : List Person)
     (hs : Node.persons n "Originators" = p :: rest) (hne : clientString p ≠ "NOASSERTION")
@@ -287,7 +295,7 @@ theorem originator_preserved (n : Node) (p : Person) (rest : List Person)
     (packageToNode (packageOf n)).attr "Originators" =
       some (.persons [Person.mk (clientString p) (clientOrg p = "Organization") "" "" "" []]) := by
   rw [package_attr n _ .persons (by simp [Schema.nodeAttrs])]
-  simp [pkgAttr, packageOf, hs, hne, hne', agentPerson]
+  simp [pkgAttr, packageOf, hs, hne, hne', agentPerson, originatorPersons]
 
 /-- PARTIAL: "a second write-then-read pass changes nothing further" is proved here for the graph
     shape only (edges that are already single-target come back as the same list); idempotence of the
@@ -356,5 +364,49 @@ example : SpdxClass { metadata := some { id := "x" }, nodeList := some exNL } { 
       simp [codecPackage, packageOf, optOutcome, Outcome.bind, Outcome.map, h1, h2, h3, h4, h5]
       exact ha
     · simp [exB] at hne
+
+end Protobom.C01
+
+namespace Protobom.C01
+open Protobom Protobom.Spdx Gen
+
+/-! ### collections of any size, and the second pass over a package node -/
+
+/-- a hash map over the sixteen shared algorithms comes back with exactly its entries (in key
+    order), whatever its size -/
+theorem all_hashes_preserved (n : Node) (hk : ∀ kv ∈ n.hashes, kv.1 ∈ spdxHashes) (hnd : (n.hashes.map (·.1)).Nodup) :
+    (packageToNode (packageOf n)).attr "Hashes" = some (.imap (sortedByKey n.hashes)) ∧
+    (sortedByKey n.hashes).Perm n.hashes := by
+  refine ⟨?_, sortedByKey_perm_self n.hashes hnd⟩
+  rw [(package_collections n).1, hashes_roundtrip n hk hnd]
+
+/-- any number of references of the eight SPDX-expressible types (with a URL) and an identifier
+    map over purl / CPE 2.2 / CPE 2.3 / gitoid: every reference comes back with type, URL and comment,
+    in order, and every identifier under its key -/
+theorem all_references_and_identifiers_preserved (n : Node)
+    (hr : ∀ e ∈ Node.refs n "ExternalReferences", e.typ ∈ spdxRefTypes ∧ e.url ≠ "")
+    (hk : ∀ kv ∈ n.identifiers, kv.1 ∈ [1, 2, 3, 4]) (hnd : (n.identifiers.map (·.1)).Nodup) :
+    (packageToNode (packageOf n)).attr "ExternalReferences" =
+      some (.refs ((Node.refs n "ExternalReferences").map (fun e => { url := e.url, typ := e.typ, comment := e.comment }))) ∧
+    (packageToNode (packageOf n)).attr "Identifiers" = some (.imap (sortedByKey n.identifiers)) := by
+  have h := refs_ids_roundtrip (Node.refs n "ExternalReferences") n.identifiers (fun e he => (hr e he).1) hk hnd
+  have hx : (packageOf n).extRefs = (Node.refs n "ExternalReferences").map refOut ++ (sortedByKey n.identifiers).map idOut := by
+    show List.map _ (List.filter _ _) ++ _ = _
+    rw [filter_url_self _ (fun e he => (hr e he).2)]
+    rfl
+  rw [(package_collections n).2.2, (package_collections n).2.1, hx, h]
+  exact ⟨rfl, rfl⟩
+
+/-- **a second write-then-read pass changes nothing further, package node by package node**: for a
+    node whose hashes, references and identifiers are in the SPDX-expressible class, writing the
+    node that came back and reading it again gives the same node — every attribute of the schema -/
+theorem second_pass_package_node (n : Node) (c : SpdxPkgNode n) : rtPkg (rtPkg n) = rtPkg n :=
+  second_pass_package n c
+
+/-- non-vacuity: a package with two hashes, a purl and a CPE is in the class -/
+example : SpdxPkgNode { id := "a", typ := 0, attrs := Schema.nodeAttrs.map (fun fk =>
+      if fk.1 = "Hashes" then .imap [(3, "aa"), (1, "bb")] else if fk.1 = "Identifiers" then .imap [(1, "pkg:x/y"), (3, "cpe:2.3:a")]
+      else fk.2.zero) } := by
+  refine ⟨by decide, by decide, by decide, by decide, by decide⟩
 
 end Protobom.C01
